@@ -27,12 +27,18 @@ def gen_history(rng, run, mode="kvs", nops=60, focus="C01"):
     nkeys = rng.choice([2, 3, 3, 4, 6])
     keyset = rng.choice(["plain", "prefix", "long"])
     pad = rng.choice([0, 0, 1500, 2500])
+    if focus == "C07" and rng.random() < 0.7:
+        # several files per level, so that a held cursor still has files to open lazily
+        nkeys = rng.choice([4, 6, 6])
+        pad = rng.choice([1500, 2500])
     opts = dict(rng.choice(OPT_GRID))
     opts["memtable-size-bytes"] = 1 << 26
     if pad:
         opts["sst-target-file-size"] = 4096
         opts["sst-minimum-file-size"] = 4096
         opts["sst-target-block-size"] = 4096
+    if focus == "C07" and rng.random() < 0.6:
+        opts["sst-cache-bytes"] = 0          # nothing stays cached: a lazily opened SST is opened by path
     if rng.random() < (0.7 if focus == "C05" else 0.25):
         opts["gc-policy"] = rng.choice(["versions = 2", "versions = 3", "versions = 1", "versions = 4"])
     if focus == "C05" and pad == 0 and rng.random() < 0.5:
@@ -45,8 +51,28 @@ def gen_history(rng, run, mode="kvs", nops=60, focus="C01"):
     style = rng.choice(["mixed", "hot", "churn", "deep", "deep"])
     ts = 10
     pending = 0
+    open_cursors = []
+    next_cursor = [0]
     for _ in range(nops):
         r = rng.random()
+        if focus == "C07" and rng.random() < 0.45:
+            # scan cursors held open across whatever the store does next
+            c = rng.random()
+            if (c < 0.35 and len(open_cursors) < 3) or not open_cursors:
+                next_cursor[0] += 1
+                sc = scan_op(rng, nkeys)
+                ops.append(["hold", next_cursor[0], sc[1] if rng.random() < 0.5 else ["U", 0], sc[2] if rng.random() < 0.5 else ["U", 0]])
+                open_cursors.append(next_cursor[0])
+            elif c < 0.9:
+                calls = scan_op(rng, nkeys)[3] if rng.random() < 0.5 else [["next"]] * rng.randint(1, 3)
+                ops.append(["step", rng.choice(open_cursors), calls])
+                if rng.random() < 0.5:
+                    ops += [["compact"]] * rng.randint(1, 4)
+            else:
+                cid = rng.choice(open_cursors)
+                open_cursors.remove(cid)
+                ops.append(["drop", cid])
+            continue
         if focus == "C03" and rng.random() < 0.3:
             ops.append(scan_op(rng, nkeys))
             continue
@@ -74,6 +100,7 @@ def gen_history(rng, run, mode="kvs", nops=60, focus="C01"):
                 ops.append(["compact"])
             elif r < 0.93:
                 ops.append(["reopen"])
+                open_cursors.clear()
             else:
                 ops.append(scan_op(rng, nkeys))
             continue
@@ -103,6 +130,7 @@ def gen_history(rng, run, mode="kvs", nops=60, focus="C01"):
             ops.append(["compact"])
         elif r < 0.92:
             ops.append(["reopen"])
+            open_cursors.clear()
             pending = 0
         elif r < 0.95:
             ops.append(["verify"])
@@ -180,7 +208,14 @@ def run_and_validate(out, wd, docs, label, devs, props, max_fail_per_chunk=4):
 
     def work(i):
         tp = os.path.join(wd, f"{label}.{i}.ndjson")
-        lines = open(tp).read().splitlines()
+        lines = []
+        if os.path.exists(tp):
+            for ln in open(tp, errors="replace").read().splitlines():
+                try:
+                    json.loads(ln)          # a process that died mid-write leaves a torn last line
+                    lines.append(ln)
+                except Exception:
+                    break
         by_run = {d["run"]: d for d in chunks[i]}
         fails = []
         stats = {"states": 0, "generated": 0, "events": 0, "runs_ok": 0, "unexamined": 0}
@@ -396,3 +431,10 @@ def check_C04(replay=None):
                          "arithmetic on the logged digests and per-entry hashes); then one altered hex digit per recorded digest per transaction "
                          "of every verifier-processed fragment, verdicts validated against Trace_Tamper")
     return out.finish("model_checking", ASSUMPTIONS + ["digests are handed to TLC as eight columns of two 16-bit limbs; per-entry hashes are computed by sst::Setsum on single entries (SHA3 uninterpreted)"])
+
+
+def check_C07(replay=None):
+    """sequential half of C07 (held cursors across flush / compaction / GC / verifier passes); the
+    concurrent half (scanners iterating while flush and compaction threads run) is in p_conc."""
+    import p_conc
+    return p_conc.check_C07(replay)
